@@ -1,4 +1,5 @@
 """C21 Two fix8 sessions deliver every application message across failures (spec/Pair.tla, SessionMon.tla C21Step)."""
+import json
 import os
 import random
 import shutil
@@ -157,10 +158,29 @@ def run(ctx):
         raise core.Infra("history export produced only %d histories" % len(scripts))
     ctx.add_model(r, "Pair.tla", "MC_Pair_export*.cfg", ["history export"])
     ctx.tick("model")
+    # second family: one send at most, two drops and two restarts - the histories in which one side restarts twice with a
+    # connection in between (what it recovers the second time was written by a process that had itself recovered)
+    r2 = tlc.check("Pair.tla", "MC_Pair_export_restarts.cfg", workers=1, timeout=900)
+    rscripts = tlc.leaves(r2["out"])
+    if len(rscripts) < 500:
+        raise core.Infra("restart-heavy history export produced only %d histories" % len(rscripts))
+    ctx.add_model(r2, "Pair.tla", "MC_Pair_export_restarts.cfg", ["history export"])
+    ctx.tick("model")
     rng = random.Random(ctx.seed + 21)
-    limit = 700 if ctx.quick else 8000
+    limit = 500 if ctx.quick else 8000
     if len(scripts) > limit:
         scripts = rng.sample(scripts, limit)
+    rlimit = 300 if ctx.quick else 4000
+    have = {json.dumps(h, sort_keys=True) for h in scripts}
+    rscripts = [h for h in rscripts if json.dumps(h, sort_keys=True) not in have]
+    if len(rscripts) > rlimit:
+        # the ones with two restarts come first
+        rscripts.sort(key=lambda h: (-sum(1 for x in h if x["op"] == "Restart"), json.dumps(h, sort_keys=True)))
+        many = [h for h in rscripts if sum(1 for x in h if x["op"] == "Restart") == 2]
+        rest = [h for h in rscripts if sum(1 for x in h if x["op"] == "Restart") < 2]
+        take = rng.sample(many, min(len(many), rlimit * 2 // 3))
+        rscripts = take + rng.sample(rest, min(len(rest), rlimit - len(take)))
+    scripts = scripts + rscripts
     wd = os.path.join(ctx.workdir, "c21")
     shutil.rmtree(wd, ignore_errors=True)
     os.makedirs(wd)
@@ -200,4 +220,27 @@ def run(ctx):
     k = len(scripts) // 2
     ctx.sample({"script": scripts[k], "trace": [session_model.slim(e) if "out" in e else e for e in traces[k]][:16]})
     ctx.trusted = ["TLC", "probe_session (two sessions in one process)", "lib/fixmsg.py stream splitter/parser", "driver as network in lib/props/c21.py"]
+    shutil.rmtree(wd, ignore_errors=True)
+
+
+def replay(ctx, doc):
+    """--replay: run the recorded schedule again on two real sessions and judge it."""
+    script = doc["case"]["script"]
+    wd = os.path.join(ctx.workdir, "c21_replay")
+    shutil.rmtree(wd, ignore_errors=True)
+    os.makedirs(wd)
+    live = sc.Live("asan", cwd=wd)
+    try:
+        trace = run_script(live, script, wd, 0)
+    finally:
+        live.close()
+    fails, labels, info = tlc.validate_execs("T_Session.tla", "T_Session.cfg", [trace], ctx.workdir, "c21_replay", chunks=1)
+    ctx.add_validation(info, 1)
+    ctx.case(script, nontrivial=True)
+    import session_model
+    for e in trace:
+        print(json.dumps(session_model.slim(e) if "out" in e else e)[:400])
+    for f in fails:
+        ctx.fail(f["sig"], f["why"], {"script": script, "pos": f["pos"], "event": f["event"]})
+    ctx.rule = "replay of one recorded schedule"
     shutil.rmtree(wd, ignore_errors=True)
